@@ -610,6 +610,9 @@ def replace_one_occurrence(rng, e):
 def per_occurrence(rng, e):
     if isinstance(e, p.Variable) and e.name in "pqr":
         # (values that are FALSE in a boolean context included: a variable bound to 0 is bound)
+        # ... and numbers that differ only beyond a double's precision: 2**53 + 1 is not 2.0**53
+        if rng.random() < 0.12:
+            return rng.choice([2**53 + 1, 2.0**53, 2**53 + 1, 2.0**53, 10**17 + 1, 1e17])
         return rng.choice([e, e, p.Variable(rng.choice("pqr")), rng.choice(TV), 0, 0, 5,
                            p.Product((0, rng.choice(TV))), p.Quotient(0, rng.choice(TV))])
     if isinstance(e, p.Expression) and normal.is_expr_dataclass(type(e)):
@@ -667,6 +670,24 @@ def workload(ctx):
             if i < 3:
                 ctx.sample("unify-" + mode, f"pattern {pat}  target {tgt}")
             ctx.run("C16.unify", (pat, tgt, cands, mode))
+        # one pattern variable facing two numbers that are EQUAL or NEARLY equal across kinds:
+        # 2**53 + 1 and 2.0**53 differ (no record may merge them), 2 and 2.0 are equal
+        P = PV[0]
+        twos = [(2**53 + 1, 2.0**53), (2.0**53, 2**53 + 1), (10**17 + 1, 1e17), (2**53, 2.0**53),
+                (2, 2.0), (2**64 + 1, 2.0**64)]     # (1 == True, 3 == 3+0j: Python-equal, mergeable)
+        pats = [lambda a, b: (p.Call(p.Variable("f"), (P, P)), p.Call(p.Variable("f"), (a, b))),
+                lambda a, b: (p.Sum((p.Call(p.Variable("g"), (P,)), p.Product((3, P)))),
+                              p.Sum((p.Call(p.Variable("g"), (a,)), p.Product((3, b))))),
+                lambda a, b: (p.Quotient(P, p.Power(TV[0], P)), p.Quotient(a, p.Power(TV[0], b))),
+                lambda a, b: (p.Subscript(p.Variable("a"), (P, PV[1], P)),
+                              p.Subscript(p.Variable("a"), (a, TV[1], b)))]
+        for (a, b) in twos:
+            for mk in pats:
+                if ctx.mine("near-equal"):
+                    pat, tgt = mk(a, b)
+                    ctx.case((normal.typed_key(pat), normal.typed_key(tgt)), True, n=0)
+                    ctx.count("near_equal_number_pairs")
+                    ctx.run("C16.unify", (pat, tgt, "pqr", "inconsistent"))
         # scale: sums / products of 9 .. 66 operands -- a few operands that mention pattern
         # variables among many that do not (those occur verbatim in the target)
         for w in scale.SMALL_WIDTHS + [40, 66]:
@@ -739,6 +760,7 @@ def workload(ctx):
         ctx.inconclusive.append("matchpy not importable")
     ctx.floor("unifier_calls", 1500)
     ctx.floor("wide_patterns", 40)
+    ctx.floor("near_equal_number_pairs", 20)
     ctx.floor("records", 1000)
     ctx.floor("mode:rename", 500)
     ctx.floor("handler:UnidirectionalUnifier.map_commut_assoc", 500)
